@@ -17,3 +17,4 @@ import SecsModel.Props.C03b
 #print axioms SecsModel.Props.C03b.plain_value_readback
 #print axioms SecsModel.Props.C03b.witness_int_becomes_text
 #print axioms SecsModel.Props.C03b.witness_array_in_pass2
+#print axioms SecsModel.Props.C03.containers_isolated
